@@ -7,6 +7,7 @@
 //! property HOLDS — that is the verifier's job — it only supplies concrete failing inputs for replay.
 mod c10;
 mod c12;
+mod c17;
 
 pub type W = (&'static str, fn() -> (bool, String));
 
@@ -15,6 +16,7 @@ fn main() {
     let mut all: Vec<W> = Vec::new();
     all.extend(c10::witnesses());
     all.extend(c12::witnesses());
+    all.extend(c17::witnesses());
     let mut ran = false;
     for (n, f) in &all {
         if name == "all" || n.starts_with(&name) {
